@@ -9,7 +9,7 @@ ID = "C07"
 LEVEL = "exploration"
 RULE = (
     "cases: every partial matching of 1..N (N<=8 quick, <=11 thorough), hostile list, random nested/knotted stem-built "
-    "structures up to N=300; BpSeq.elements is monitored on the real path (it reads the object's own dot_bracket) and "
+    "structures up to N=300, knotted structures decomposed while the MILP back-end fails transiently; BpSeq.elements is monitored on the real path (it reads the object's own dot_bracket) and "
     "compared with an independent decomposition (maximal stacked runs, hairpin pairs, loop closure, interior coverage "
     "count per unpaired nucleotide, slice equality). Non-trivial = at least one base pair; distinct = canonical JSON hash."
 )
@@ -18,7 +18,7 @@ ASSUMPTIONS = [
     "slices are compared with the dot-bracket text cached on the object by elements itself (judged by C01)",
 ]
 REQUIRED_MONITORS = ["BpSeq.elements"]
-REQUIRED_CLAUSES = ["stems.maximal-runs", "hairpins.exact", "loops.sound", "unpaired.covered-once", "strands.slices"]
+REQUIRED_CLAUSES = ["transient.strands-are-slices-of-own-dot-bracket", "stems.maximal-runs", "hairpins.exact", "loops.sound", "unpaired.covered-once", "strands.slices"]
 LANDMARKS = {
     "hairpin": ("BpSeq.elements", "hairpins.append"),
     "loop": ("BpSeq.elements", "loops.append(Loop(loop))"),
@@ -177,6 +177,17 @@ def cases(shard, nshards, seed, tier):
         n, pairs = gen2d.random_stems(rng, ns, maxlen=rng.choice([1, 2, 6]), spacer=(0, rng.choice([0, 1, 2, 5])), shape=shape)
         if n <= 300:
             yield {"family": "random-stems", "n": n, "pairs": pairs, "seq": gen2d.seq_for(n, rng)}
+    # transient solver fault: the decomposition is asked for while the MILP back-end fails, the
+    # object's dot-bracket is read afterwards with a healthy back-end (and the other way round)
+    tf = [(name, n, pairs) for name, n, pairs in gen2d.hostile() if name in ("H-type-short-first", "short-first-1-3", "short-first-2-4", "triangle-short-first", "kissing", "six-H-types")]
+    for i in range(20 if tier == "quick" else 400):
+        rng = random.Random(f"{seed}:C07:tf:{i}")
+        n, pairs = gen2d.random_stems(rng, rng.randint(2, 6), maxlen=rng.choice([1, 3, 6]), spacer=(0, 2), shape=rng.choice([None, "chain"]))
+        tf.append((f"r{i}", n, pairs))
+    for name, n, pairs in tf:
+        for order in ("fault-then-healthy", "healthy-then-fault"):
+            if mine():
+                yield {"family": "transient-fault", "name": name, "n": n, "pairs": pairs, "order": order}
     # multiloop-rich: random non-crossing matchings
     nml = 500 if tier == "quick" else 10000
     for i in range(nml):
@@ -189,8 +200,53 @@ def cases(shard, nshards, seed, tier):
         yield {"family": "random-balanced", "n": n, "pairs": sorted(dec)}
 
 
+def _all_strands(elements):
+    stems, ss, hp, loops = elements
+    out = []
+    for s in stems:
+        out += [s.strand5p, s.strand3p]
+    out += [s.strand for s in ss] + [h.strand for h in hp]
+    for l in loops:
+        out += list(l.strands)
+    return out
+
+
+def _transient(case, rec, n, pairs):
+    """elements under a failing back-end, dot_bracket read with a healthy one (or the
+    reverse): the strands must be slices of the notation the object itself answers with."""
+    from vmon.props.c13 import _Inject
+
+    b = mon2d.make_bpseq(n, pairs)
+    det = lambda extra=None: {"n": n, "pairs": pairs, "order": case["order"], "info": extra}
+    try:
+        if case["order"] == "fault-then-healthy":
+            with _Inject("cbc", "raise"):
+                el = b.elements
+            text = b.dot_bracket.structure
+            el2 = b.elements
+        else:
+            el = b.elements
+            with _Inject("cbc", "raise"):
+                text = b.dot_bracket.structure
+                el2 = b.elements
+    except Exception as e:
+        rec.violation("transient.no-crash", det(repr(e)[:300]), mechanism=f"crash:{type(e).__name__}")
+        return
+    bad = None
+    for which, e in (("first", el), ("again", el2)):
+        for t in _all_strands(e):
+            if t.structure != text[t.first - 1 : t.last]:
+                bad = (which, t.first, t.last, t.structure, text[t.first - 1 : t.last])
+                break
+    rec.check("transient.strands-are-slices-of-own-dot-bracket", bad is None, lambda: det({"strand": bad, "dot_bracket": text}))
+
+
 def run_case(case, rec):
     n, pairs = case["n"], [tuple(p) for p in case["pairs"]]
+    if case["family"] == "transient-fault":
+        rec.mark_nontrivial(len(pairs) > 0)
+        _transient(case, rec, n, pairs)
+        return
     b = mon2d.make_bpseq(n, pairs, case.get("seq"))
     rec.mark_nontrivial(len(pairs) > 0)
     try:
